@@ -137,7 +137,7 @@ func TestVerifC11Kill(t *testing.T) {
 		fields := make([][4]int64, nPods)
 		for i := range fields {
 			for f := 0; f < 4; f++ {
-				if r.Chance(1, 4) {
+				if r.Chance(1, 6) {
 					fields[i][f] = 0
 				} else {
 					fields[i][f] = int64(r.Range(1, 12))
@@ -181,7 +181,7 @@ func TestVerifC11Kill(t *testing.T) {
 				// mostly: the function reports the resources of the target; sometimes others
 				used := map[int]bool{}
 				for _, ra := range tk.to {
-					if r.Chance(5, 6) {
+					if r.Chance(11, 12) {
 						tk.fn = append(tk.fn, [2]int{int(ra[0]), r.Intn(4)})
 						used[int(ra[0])] = true
 					}
@@ -195,6 +195,9 @@ func TestVerifC11Kill(t *testing.T) {
 			}
 			perm := r.Perm(nPods)
 			k := r.Range(0, nPods)
+			if k == 0 && r.Chance(2, 3) {
+				k = r.Range(1, nPods)
+			}
 			tk.pods = append(tk.pods, perm[:k]...)
 			if k > 0 && r.Chance(1, 12) {
 				tk.pods = append(tk.pods, tk.pods[r.Intn(k)]) // the same pod listed twice
